@@ -205,7 +205,7 @@ func (w *World) Token(form url.Values, a Auth) *Obs {
 func (w *World) TokenWith(form url.Values, a Auth, opt TokenOpts) *Obs {
 	req := postReq("/token", form, a)
 	rec := httptest.NewRecorder()
-	ctx := context.Background()
+	ctx := w.newCtx()
 	var sess fosite.Session = w.NewSession("")
 	if opt.Session != nil {
 		sess = opt.Session
@@ -249,7 +249,7 @@ type PendingToken struct {
 
 func (w *World) TokenBegin(form url.Values, a Auth) *PendingToken {
 	req := postReq("/token", form, a)
-	ctx := context.Background()
+	ctx := w.newCtx()
 	ar, err := w.Prov.NewAccessRequest(ctx, req, w.NewSession(""))
 	p := &PendingToken{ar: ar, err: err}
 	if err != nil {
@@ -265,7 +265,7 @@ func (w *World) TokenFinish(p *PendingToken) *Obs {
 	if p.obs != nil {
 		return p.obs
 	}
-	ctx := context.Background()
+	ctx := w.newCtx()
 	rec := httptest.NewRecorder()
 	resp, err := w.Prov.NewAccessResponse(ctx, p.ar)
 	if err != nil {
@@ -284,7 +284,7 @@ func (w *World) TokenFinish(p *PendingToken) *Obs {
 // to answer it (its own policy said no): no response is ever populated.
 func (w *World) TokenAbandoned(form url.Values, a Auth) error {
 	req := postReq("/token", form, a)
-	_, err := w.Prov.NewAccessRequest(context.Background(), req, w.NewSession(""))
+	_, err := w.Prov.NewAccessRequest(w.newCtx(), req, w.NewSession(""))
 	return err
 }
 
@@ -320,7 +320,7 @@ func (w *World) AuthorizeRaw(rawQuery string, opt AuthzOpts) *Obs {
 
 func (w *World) authorizeReq(req *http.Request, opt AuthzOpts) *Obs {
 	rec := httptest.NewRecorder()
-	ctx := context.Background()
+	ctx := w.newCtx()
 	ar, err := w.Prov.NewAuthorizeRequest(ctx, req)
 	if err != nil {
 		w.Prov.WriteAuthorizeError(ctx, rec, ar, err)
@@ -389,7 +389,7 @@ func (w *World) Introspect(token, hint, scope string, caller Auth, bearer string
 		req.Header.Set("Authorization", "Bearer "+bearer)
 	}
 	rec := httptest.NewRecorder()
-	ctx := context.Background()
+	ctx := w.newCtx()
 	ir, err := w.Prov.NewIntrospectionRequest(ctx, req, w.NewSession(""))
 	if err != nil {
 		w.Prov.WriteIntrospectionError(ctx, rec, err)
@@ -422,7 +422,7 @@ func (w *World) Revoke(token, hint string, caller Auth) *Obs {
 	}
 	req := postReq("/revoke", form, caller)
 	rec := httptest.NewRecorder()
-	ctx := context.Background()
+	ctx := w.newCtx()
 	err := w.Prov.NewRevocationRequest(ctx, req)
 	w.Prov.WriteRevocationResponse(ctx, rec, err)
 	o := parseRecorder(rec)
@@ -439,7 +439,7 @@ func (w *World) Revoke(token, hint string, caller Auth) *Obs {
 func (w *World) PAR(form url.Values, a Auth) *Obs {
 	req := postReq("/par", form, a)
 	rec := httptest.NewRecorder()
-	ctx := context.Background()
+	ctx := w.newCtx()
 	ar, err := w.Prov.NewPushedAuthorizeRequest(ctx, req)
 	if err != nil {
 		w.Prov.WritePushedAuthorizeError(ctx, rec, ar, err)
@@ -463,7 +463,7 @@ func (w *World) PAR(form url.Values, a Auth) *Obs {
 func (w *World) DeviceAuth(form url.Values, a Auth) *Obs {
 	req := postReq("/device/auth", form, a)
 	rec := httptest.NewRecorder()
-	ctx := context.Background()
+	ctx := w.newCtx()
 	dr, err := w.Prov.NewDeviceRequest(ctx, req)
 	if err != nil {
 		w.Prov.WriteAccessError(ctx, rec, dr, err)
@@ -496,4 +496,18 @@ func sortedKeys[V any](m map[string]V) []string {
 	}
 	sort.Strings(ks)
 	return ks
+}
+
+// newCtx: the context of one request. CancelRequest cancels the context of the request in progress (a client that
+// went away, a deadline that fired) — used by the fault engine.
+func (w *World) newCtx() context.Context {
+	ctx, cancel := context.WithCancel(context.Background())
+	w.cancelReq = cancel
+	return ctx
+}
+
+func (w *World) CancelRequest() {
+	if w.cancelReq != nil {
+		w.cancelReq()
+	}
 }
